@@ -372,7 +372,7 @@ func runTF(c *hx.Ctx, t tfCase) bool {
 		}
 	}
 	accIdx := "-"
-	oldAddr := socks[t.target].Addr().String()
+	oldAddr := strings.ReplaceAll(t.old[t.target]+":P", "P", strconv.Itoa(port)) // as configured ("0.0.0.0:p" opens [::]:p)
 	for i, l := range ls {
 		if l.Addr().Network() == "tcp" && l.Addr().String() == oldAddr {
 			accIdx = fmt.Sprint(i)
@@ -395,6 +395,7 @@ var fixedTF = []tfCase{
 	{old: []string{"[::]"}, fam: 4, newLs: []lkListener{{"tcp", "[::]:P", true}}, half: 28},
 	{old: []string{"[::]"}, fam: 6, newLs: []lkListener{{"tcp", "[::]:P", true}}, half: 28},
 	{old: []string{"0.0.0.0"}, fam: 4, newLs: []lkListener{{"tcp", "0.0.0.0:P", true}}, half: 64},
+	{old: []string{"0.0.0.0"}, fam: 6, newLs: []lkListener{{"tcp", "0.0.0.0:P", true}}, half: 22},
 	{old: []string{"[::]"}, fam: 4, newLs: []lkListener{{"tcp", "0.0.0.0:Q", true}, {"tcp", "[::]:Q", true}, {"tcp", "[::]:P", true}}, half: 1},
 }
 
@@ -407,8 +408,11 @@ func genTF(c *hx.Ctx, i int) tfCase {
 		t.old, t.newLs = []string{"[::]"}, []lkListener{{"tcp", "[::]:P", true}}
 	case 1: // dual stack, IPv6 peer
 		t.old, t.fam, t.newLs = []string{"[::]"}, 6, []lkListener{{"tcp", "[::]:P", true}}
-	case 2:
+	case 2: // configured on the IPv4 wildcard (Go opens a dual-stack socket for it): IPv4 or IPv6 peer
 		t.old, t.newLs = []string{"0.0.0.0"}, []lkListener{{"tcp", "0.0.0.0:P", true}}
+		if r.Chance(40) {
+			t.fam = 6
+		}
 	case 3:
 		t.old, t.newLs = []string{"127.0.0.1"}, []lkListener{{"tcp", "127.0.0.1:P", true}}
 	case 4:
@@ -419,8 +423,8 @@ func genTF(c *hx.Ctx, i int) tfCase {
 		if r.Bool() {
 			t.newLs[0], t.newLs[1] = t.newLs[1], t.newLs[0]
 		}
-	case 6: // two sockets on one port: IPv4 wildcard and IPv6 loopback
-		t.old, t.newLs = []string{"0.0.0.0", "[::1]"}, []lkListener{{"tcp", "0.0.0.0:P", true}, {"tcp", "[::1]:P", true}}
+	case 6: // two sockets on one port: IPv4 and IPv6 loopback
+		t.old, t.newLs = []string{"127.0.0.1", "[::1]"}, []lkListener{{"tcp", "127.0.0.1:P", true}, {"tcp", "[::1]:P", true}}
 		if r.Bool() {
 			t.fam, t.target = 6, 1
 		}
